@@ -76,6 +76,9 @@ def main():
                     help="when the property's own check misses the change, run the quick tier of every other registered check")
     ap.add_argument("--no-suite", action="store_true", help="skip re-running the project's test-suite on the patched tree")
     ap.add_argument("--scratch", action="store_true", help="apply the patches to a scratch worktree of /repo's HEAD instead of /repo itself")
+    ap.add_argument("--fix", action="append", default=[], metavar="DIFF",
+                    help="with --scratch: apply this pending repair (fixes/<slug>.diff, not yet committed in /repo) to the scratch worktree "
+                         "first and commit it there, so that the seeded change is judged against HEAD + the repair")
     a = ap.parse_args()
     global REPO
     scratch = None
@@ -85,6 +88,16 @@ def main():
         if r.returncode != 0:
             sys.exit("cannot create scratch worktree: " + r.stderr)
         REPO = scratch
+        for fx in a.fix:
+            r = sh(["git", "-C", scratch, "apply", os.path.abspath(fx)])
+            if r.returncode != 0:
+                sh(["git", "-C", "/repo", "worktree", "remove", "--force", scratch])
+                sys.exit("cannot apply %s: %s" % (fx, r.stderr))
+        if a.fix:
+            sh(["git", "-C", scratch, "-c", "user.name=seedtest", "-c", "user.email=seedtest@localhost", "commit", "-qam",
+                "pending repairs: " + ", ".join(os.path.basename(f) for f in a.fix)])
+    elif a.fix:
+        sys.exit("--fix needs --scratch")
     try:
         run(a)
     finally:
